@@ -151,6 +151,12 @@ theorem push_spec (ctx : Scope) (st : St) :
     have hi : i < st.heap.length := (List.getElem?_eq_some_iff.mp hc).1
     exact ⟨c, by simp [push, List.getElem?_append_left hi, hc], rfl, fun _ => rfl⟩
 
+theorem noteImpossible_ext (W : Nat → Prop) (a : Bool) (ctx : Scope) (st : St) : Ext W st (noteImpossible a ctx st) := by
+  unfold noteImpossible
+  split
+  · exact Ext.of_heap_eq rfl rfl
+  · exact Ext.refl _ _
+
 theorem write_ext (W : Nat → Prop) (st : St) (b : Bytes) : Ext W st (write st b) :=
   Ext.of_heap_eq rfl rfl
 
